@@ -314,6 +314,15 @@ def run(prop_id, tier, seed, nshards=None):
             st0.add(mod, "known-finding-replay", 0, case, v)
             if not any(f.known == kid for f in v.fails):
                 known_notes.append(f"listed finding {kid} did not reproduce on its recorded input")
+    # 1b. committed regression replays (shrunk failures of earlier runs; bypass Hypothesis)
+    rdir = os.path.join(VERIF, "regress", prop_id)
+    if os.path.isdir(rdir):
+        for name in sorted(os.listdir(rdir)):
+            if not name.endswith(".json"):
+                continue
+            with open(os.path.join(rdir, name)) as f:
+                case = codec.dec(json.load(f)["case"])
+            st0.add(mod, "regression-replays", 0, case, mod.check_case(case))
     extra_parts.append(st0.export())
 
     # 2. the search
@@ -360,9 +369,11 @@ def run(prop_id, tier, seed, nshards=None):
         rule=mod.RULE,
         samples=tot["samples"],
         classes=dict(sorted(tot["classes"].items())),
-        phases={p.name: dict(cases=tot["phase_counts"].get(p.name, 0), exhaustive=p.exhaustive,
-                             kind="enumerated" if p.enum is not None else "hypothesis", note=p.note)
-                for p in phases},
+        phases=dict({p.name: dict(cases=tot["phase_counts"].get(p.name, 0), exhaustive=p.exhaustive,
+                                  kind="enumerated" if p.enum is not None else "hypothesis", note=p.note)
+                     for p in phases},
+                    **{k: dict(cases=c, kind="replayed files") for k, c in tot["phase_counts"].items()
+                       if k in ("regression-replays", "known-finding-replay")}),
         exhaustive=exhaustive,
         exhaustive_phases=[p.name for p in phases if p.exhaustive],
         known_findings_matched=dict(tot["known"]),
